@@ -148,6 +148,8 @@ def srcText (ts : Toks) : String := " ".intercalate ts
 /-- strip a raw-identifier prefix (`Ident::unraw`, and what `format_ident!` does
 to identifier arguments) -/
 def unraw (s : String) : String :=
-  if s.startsWith "r#" then (s.drop 2).toString else s
+  match s.toList with
+  | 'r' :: '#' :: rest => String.ofList rest
+  | _ => s
 
 end DX
